@@ -133,6 +133,9 @@ CARRIERS = {
     "edge_utf8_noeol": (_t("# Über\n\nstraße"), "edge"),
     "edge_nbsp": (_t("# T\n\nnon breaking separator\n"), "edge"),
     "edge_formfeed": (_t("# T\n\nform\x0cfeed and vt\x0b and fs\x1c here\n"), "edge"),
+    "edge_seps_tail": (_t("# T\n\nnel\x85here and ff\x0chere\n\n\n\nlast line   "), "edge"),
+    "edge_u2028": (_t("# T\n\nline\u2028separator and\u2029paragraph separator\ttab\n\ntrailing  \nend"), "edge"),
+    "edge_fs_gs_rs": (_t("# T\n\nfs\x1cgs\x1drs\x1eus\x1f vt\x0b\n\n\n\nmore   \n"), "edge"),
     "edge_long_line": (_t("# T\n\n" + ("word " * 2000) + "\n"), "edge"),
     "edge_2000_lines": (_t("# Big\n\n" + "".join("line %d with trailing  \n" % i if i % 50 == 0 else "line %d\n" % i for i in range(2000))), "edge"),
     "edge_2000_fixable": (_t("# Big\n\n" + "".join("tab\there %d\n" % i for i in range(600))), "edge"),
